@@ -20,6 +20,12 @@ MCNameMenu == { [cn |-> "foo", tn |-> "Foo"], [cn |-> "fooBar", tn |-> "FooBar"]
                 [cn |-> "foobar", tn |-> "Foobar"], [cn |-> "reset", tn |-> "Reset"],
                 [cn |-> "item", tn |-> "Item"] }
 MCNameMenuSmall == { [cn |-> "foo", tn |-> "Foo"], [cn |-> "fooBar", tn |-> "FooBar"], [cn |-> "foobar", tn |-> "Foobar"] }
+(* names that differ only by "namespace separator vs case": ab.cd / abCd, a.bC / aB.c (constructors)
+   and ab.Cd / AbCd (types only: p, q) *)
+MCNameMenuSep == { [cn |-> "cd", tn |-> "Cd"], [cn |-> "abCd", tn |-> "AbCd"], [cn |-> "bC", tn |-> "BC"],
+                   [cn |-> "c", tn |-> "C"], [cn |-> "p", tn |-> "Cd"], [cn |-> "q", tn |-> "AbCd"] }
+MCUnionMenuNone == {}
+MCKindsNone == {}
 MCNameMenuOne == { [cn |-> "foo", tn |-> "Foo"] }
 MCMutationsNone == {}
 MCUnionMenu == { [tn |-> "Shape", vs |-> <<"shapeCircle", "shapeSquare", "shapeNone">>] }
@@ -31,6 +37,7 @@ MCFieldNamesMethods == {"x", "reset", "string", "tLTag", "tLName", "readJSON", "
                         "ReadJSON", "Read", "Write"}
 MCFieldNamesSmall == {"x", "type", "String"}
 MCFieldNamesTiny == {"x", "type"}
+MCFieldNamesOne == {"v"}
 MCMutationsTiny == {"unknownref", "dupcomb", "selfbare"}
 MCKinds == {"nat", "int", "long", "string", "bool", "double", "mtrue", "mint", "vec", "maybe", "arr", "arrc",
             "tuplec", "ref", "rec", "dict", "dictany", "pair", "tinst"}
